@@ -16,6 +16,21 @@ def check(run):
             for pos in range(0, len(e.replies) + 1):
                 sc = h.build((j, pos, "silence"))
                 scs.append(sc); meta.append(("stall", h, j, pos))
+    # (1b) a packet arriving exactly at / just before / just after its deadline, at every position (the boundary of the
+    #      timeout computation); (1c) several stalls in one history, stalls inside reconnect handshakes included
+    hs_all = histories(S, rng)
+    for h in hs_all:
+        for j, e in enumerate(h.exchanges):
+            for pos in range(0, len(e.replies) + 1):
+                if not th and rng.random() > 0.25:
+                    continue
+                for d in (e.timeout - 1, e.timeout, e.timeout + 1):
+                    scs.append(h.build_multi([(j, pos, "late:%d" % d)])); meta.append(("late", h, j, pos))
+        for _ in range(400 if th else 5):
+            nf = rng.choice([2, 3, 4, 5])
+            faults = sorted(((rng.randrange(len(h.exchanges)), rng.randrange(0, 4), "silence") for _ in range(nf)), key=lambda f: f[0])
+            hs = [((rng.randrange(2), rng.randrange(2), "silence") if rng.random() < 0.4 else None) for _ in range(nf + 3)]
+            scs.append(h.build_multi(faults, hs)); meta.append(("multi-stall", h, nf, 0))
     # stall during the FIRST handshake (connect, registration, identity check) and in a reconnect's handshake
     for cut in range(0, 5):
         h = cc.History(S); h.read_card()
